@@ -64,7 +64,7 @@ func (af AlignerFilter) Filter(_ context.Context, result Result) (Result, error)
 				// If this is not the first cluster
 
 				// Check if the first item is magically aligned to the slot, return it
-				if firstItem.Timestamp == clusterTimestampClassifier {
+				if firstItem.Timestamp.Equal(clusterTimestampClassifier) {
 					return timeseries.TsRecord[any]{
 						Value:     firstItem.Value,
 						Timestamp: clusterTimestampClassifier,
@@ -121,7 +121,7 @@ func alignmentPeriodClassifierFunc[T any](ap timeseries.AlignmentPeriod) func(a 
 // timeWeightedAverageArr computes the time-weighted average of two values (v1Arr and v2Arr) erroring if the values are not numeric
 func timeWeightedAverage(fieldMeta tsquery.FieldMeta, targetTime, v1Time time.Time, v1 any, v2Time time.Time, v2 any) (any, error) {
 	if v1Time.Equal(v2Time) {
-		if v1Time == targetTime {
+		if v1Time.Equal(targetTime) {
 			return v1, nil
 		}
 		return nil, fmt.Errorf("v1Time and v2Time are the same: %s. targetTime:%s", v1Time, targetTime)
